@@ -1,7 +1,8 @@
 #!/usr/bin/env python3
 """Translate the grapheme tables of the locked `unicode-segmentation` crate into Gallina (and Rust).
 
-    tools/gen_uax29.py            regenerate coq/theories/UAX29_Table.v and harness/src/uax29_ranges.rs
+    tools/gen_uax29.py            regenerate coq/theories/UAX29_Table.v, harness/src/uax29_ranges.rs and
+                                  corpus/C11/uax29_boundaries.case
     tools/gen_uax29.py --check    exit 1 if the committed files differ from what the registry source gives,
                                   exit 0 (with a note) if the registry source of the locked version is absent
 
@@ -26,6 +27,7 @@ import sys
 ROOT = os.path.dirname(os.path.dirname(os.path.abspath(__file__)))
 OUT_V = os.path.join(ROOT, "coq", "theories", "UAX29_Table.v")
 OUT_RS = os.path.join(ROOT, "harness", "src", "uax29_ranges.rs")
+OUT_CORPUS = os.path.join(ROOT, "corpus", "C11", "uax29_boundaries.case")
 CRATE = "unicode-segmentation"
 
 
@@ -206,6 +208,39 @@ def rust(d, version, digest):
     return "\n".join(o) + "\n"
 
 
+# the probe strings of harness/src/bin/c11.rs (fn probe_text) — keep the two in step
+PROBES = [([0x1100], [0x11A8]), ([0x1161], [0x1161]), ([13], [10]), ([0x1F600], [0x200D, 0x1F600]),
+          ([0x1F600], [0x1F600]), ([0x1F1E6], [0x1F1E6]), ([0x915], [0x915]), ([0x915, 0x94D], [0x915]),
+          ([32], [])]
+
+
+def probe_text(c):
+    out = []
+    for pre, post in PROBES:
+        out += pre + [c] + post + [0x2028]
+    return out + [c, c]
+
+
+def corpus(d, version):
+    """C11 inputs (grapheme mode; the harness re-derives the cluster lists): the probe strings around
+    every code point at or next to an end of a range of the three tables — run first on every check"""
+    pts = {0, 0x7E, 0x7F, 0x80, 0xD7FF, 0xE000, 0xFFFF, 0x10000, 0x10FFFF}
+    for lo, hi, _ in d["table"]:
+        pts.update((lo - 1, lo, hi, hi + 1))
+    for lo, hi in d["incb_extend"]:
+        pts.update((lo - 1, lo, hi, hi + 1))
+    for c in d["incb_linker"]:
+        pts.update((c - 1, c, c + 1))
+    pts = sorted(c for c in pts if 0 <= c <= 0x10FFFF and not 0xD800 <= c <= 0xDFFF)
+    o = [f"# GENERATED by tools/gen_uax29.py from {CRATE}-{version}/src/tables.rs — do not edit.",
+         f"# {len(pts)} code points at or next to the ends of the ranges of grapheme_cat_table,",
+         "# InCB_Extend_table and is_incb_linker; one input per code point: the probe strings of",
+         "# c11.rs:probe_text around it, as one cluster (the harness' canon re-segments the text)."]
+    for c in pts:
+        o.append("(1 ((" + " ".join(str(x) for x in probe_text(c)) + ")) ())")
+    return "\n".join(o) + "\n"
+
+
 def main():
     check = "--check" in sys.argv[1:]
     version = locked_version()
@@ -220,7 +255,8 @@ def main():
     digest = hashlib.sha256(raw).hexdigest()
     d = parse(raw.decode("utf-8"))
     validate(d)
-    outs = [(OUT_V, gallina(d, version, digest) + "\n"), (OUT_RS, rust(d, version, digest))]
+    outs = [(OUT_V, gallina(d, version, digest) + "\n"), (OUT_RS, rust(d, version, digest)),
+            (OUT_CORPUS, corpus(d, version))]
     if check:
         bad = []
         for p, text in outs:
